@@ -270,7 +270,7 @@ func cmdRun(args []string) {
 			return v != nil && v.Class+"|"+v.Property == class
 		}
 		stateful := viol.Class == "process-state-changed" // nothing executed in this process can be trusted any more
-		noisy := viol.Class == "excessive-allocation" // decided on a measured quantity: failing to reproduce is inconclusive, not a harness fault
+		noisy := viol.Class == "excessive-allocation"     // decided on a measured quantity: failing to reproduce is inconclusive, not a harness fault
 		if stateful || !origOK() {
 			if noisy {
 				emit(outLine{T: "inconclusive", I: i, Msg: viol.Detail})
